@@ -13,6 +13,22 @@ from world import World, name_locks, pc
 UNI = [b"a", b"t/\xc3\xa9", b"\xf0\x9f\x98\x80", b"", b"$SYS/x"]
 
 
+
+def rv(reason):
+    """a reason code handed to a callback, as its value - flagged when the object is not self-consistent: its name (what
+    str(), getName() and == "<name>" use) must denote the same code for its packet type, and is_failure must be value >= 128"""
+    from paho.mqtt.reasoncodes import ReasonCode
+    v = reason.value
+    try:
+        back = ReasonCode(reason.packetType, aName=str(reason)).value
+    except Exception as e:  # noqa: BLE001
+        back = f"{type(e).__name__}"
+    flag = "" if back == v else f"!name={str(reason).replace(' ', '_')}"
+    if bool(reason.is_failure) != (v >= 128):
+        flag += "!is_failure"
+    return f"{v}{flag}"
+
+
 def excname(e):
     n = type(e).__name__
     return "struct.error" if n == "error" else n
@@ -153,12 +169,12 @@ class DecodeStream:
         v5 = proto == 5
         if api == 1:
             if v5:
-                c.on_connect = lambda cl, ud, flags, reason, props: ev.append(f"on_connect sp={flags['session present']} reason={reason.value} props={pv(props)}")
+                c.on_connect = lambda cl, ud, flags, reason, props: ev.append(f"on_connect sp={flags['session present']} reason={rv(reason)} props={pv(props)}")
                 c.on_disconnect = lambda cl, ud, rc, props=None: (None if isinstance(rc, int) else ev.append(
-                    f"on_disconnect reason={'None' if rc is None else rc.value} props={pv(props)}"))
-                c.on_subscribe = lambda cl, ud, mid, codes, props: ev.append(f"on_subscribe mid={mid} codes={','.join(str(x.value) for x in codes)} props={pv(props)}")
+                    f"on_disconnect reason={'None' if rc is None else rv(rc)} props={pv(props)}"))
+                c.on_subscribe = lambda cl, ud, mid, codes, props: ev.append(f"on_subscribe mid={mid} codes={','.join(rv(x) for x in codes)} props={pv(props)}")
                 c.on_unsubscribe = lambda cl, ud, mid, props, codes: ev.append(
-                    f"on_unsubscribe mid={mid} props={pv(props)} " + (f"codes={','.join(str(x.value) for x in codes)}" if isinstance(codes, list) else f"code={codes.value}"))
+                    f"on_unsubscribe mid={mid} props={pv(props)} " + (f"codes={','.join(rv(x) for x in codes)}" if isinstance(codes, list) else f"code={rv(codes)}"))
             else:
                 c.on_connect = lambda cl, ud, flags, rc: ev.append(f"on_connect sp={flags['session present']} rc={int(rc)}")
                 c.on_disconnect = lambda cl, ud, rc: None     # MQTT 3: always client-generated
@@ -166,12 +182,12 @@ class DecodeStream:
                 c.on_unsubscribe = lambda cl, ud, mid: ev.append(f"on_unsubscribe mid={mid}")
             c.on_publish = lambda cl, ud, mid: ev.append(f"on_publish mid={mid}")
         else:
-            c.on_connect = lambda cl, ud, flags, reason, props: ev.append(f"on_connect sp={int(flags.session_present)} reason={reason.value} props={pv(props)}")
+            c.on_connect = lambda cl, ud, flags, reason, props: ev.append(f"on_connect sp={int(flags.session_present)} reason={rv(reason)} props={pv(props)}")
             c.on_disconnect = lambda cl, ud, flags, reason, props: (ev.append(
-                f"on_disconnect from_server=1 reason={reason.value} props={pv(props)}") if flags.is_disconnect_packet_from_server else None)
-            c.on_subscribe = lambda cl, ud, mid, codes, props: ev.append(f"on_subscribe mid={mid} codes={','.join(str(x.value) for x in codes)} props={pv(props)}")
-            c.on_unsubscribe = lambda cl, ud, mid, codes, props: ev.append(f"on_unsubscribe mid={mid} codes={','.join(str(x.value) for x in codes)} props={pv(props)}")
-            c.on_publish = lambda cl, ud, mid, reason, props: ev.append(f"on_publish mid={mid} reason={reason.value} props={pv(props)}")
+                f"on_disconnect from_server=1 reason={rv(reason)} props={pv(props)}") if flags.is_disconnect_packet_from_server else None)
+            c.on_subscribe = lambda cl, ud, mid, codes, props: ev.append(f"on_subscribe mid={mid} codes={','.join(rv(x) for x in codes)} props={pv(props)}")
+            c.on_unsubscribe = lambda cl, ud, mid, codes, props: ev.append(f"on_unsubscribe mid={mid} codes={','.join(rv(x) for x in codes)} props={pv(props)}")
+            c.on_publish = lambda cl, ud, mid, reason, props: ev.append(f"on_publish mid={mid} reason={rv(reason)} props={pv(props)}")
         c.on_message = lambda cl, ud, m: ev.append(
             f"on_message dup={int(m.dup)} qos={m.qos} retain={int(m.retain)} topic={hx(m._topic)} mid={m.mid} props={pv(m.properties)} payload={hx(bytes(m.payload))}")
         s.feed(data)
